@@ -100,9 +100,30 @@ fn gen_hide_case(rng: &mut Rng, sw: &Swarm, forced_attr: u16, sm: &mut Rng) -> H
     let apb = rng.bytes(16);
     let mut ap = [0u8; 16];
     ap.copy_from_slice(&apb);
+    let secret = rng.bytes(secret_len);
+    // ciphertext blocks with special values: a value whose plaintext makes
+    // a chunk of the hidden value come out all zero, all ones, or equal to
+    // the chunk before it (an "empty" sentinel, a chunk compared with its
+    // predecessor, ... would stumble here)
+    let mut avp = avp;
+    if rng.chance(1, 10) {
+        if let Val::Bytes(p) = &mut avp.val {
+            if p.len() >= 30 && avp.attr != 0 {
+                let conv = calibrated_conv().unwrap_or(LenConv::Whole);
+                let blocks = (p.len() - 14) / 16;
+                let b = rng.urange(1, blocks);
+                let target = match rng.below(4) {
+                    0 | 1 => Some([0u8; 16]),
+                    2 => Some([0xFFu8; 16]),
+                    _ => None,
+                };
+                force_cipher_block(avp.attr, p, &secret, &rvb, conv, b, target);
+            }
+        }
+    }
     HideCase {
         avp,
-        secret: rng.bytes(secret_len),
+        secret,
         rv: [rvb[0], rvb[1], rvb[2], rvb[3]],
         lp: rng.bytes(lp_len),
         ap,
@@ -574,6 +595,14 @@ fn exec_c12(case: &Case12, obs: &mut Obs) -> Result<(), Failure> {
             }
             let a = spec_hide(c.avp.attr, &payload, &c.secret, &c.rv, &c.lp, &c.ap, LenConv::Whole);
             let b = spec_hide(c.avp.attr, &payload, &c.secret, &c.rv, &c.lp, &c.ap, LenConv::Value);
+            if let Some(v) = &a {
+                if v.chunks_exact(16).any(|c| c.iter().all(|&x| x == 0)) {
+                    obs.count("probe:hidden-chunk-all-zero");
+                }
+                if v.chunks_exact(16).zip(v.chunks_exact(16).skip(1)).any(|(x, y)| x == y) {
+                    obs.count("probe:hidden-chunk-repeats-predecessor");
+                }
+            }
             let conv = if a.as_deref() == Some(&h.value[..]) {
                 LenConv::Whole
             } else if b.as_deref() == Some(&h.value[..]) {
